@@ -42,7 +42,7 @@ KEYS = st.sampled_from(["a", "a", "b", "b", "c", "n"])
 sps = st.dictionaries(KEYS, VALS, max_size=2)
 H = st.integers(0, 7)
 P = st.integers(0, 1)
-FILES = st.sampled_from(["f.txt", "g.bin", "sub/h.txt", "sub/deep/i.txt"])
+FILES = st.sampled_from(["f.txt", "g.bin", "sub/h.txt", "sub/deep/i.txt", "notes.txt~", "._hidden", "sub/._cache"])
 DOCV = st.one_of(st.integers(0, 3), st.sampled_from([1.0, "s", None, [1, 2], {"y": 1}, True]))
 DOCK = st.sampled_from(["x", "y", "foo"])
 
@@ -70,6 +70,7 @@ OP = st.one_of(
     fd(op="doc_clear", h=H),
     fd(op="doc_reset", h=H, m=st.dictionaries(DOCK, DOCV, max_size=2)),
     fd(op="write", h=H, name=FILES, data=st.sampled_from(["", "x", "hello\n", "\x00\xff"])),
+    fd(op="append", h=H, name=FILES, data=st.sampled_from(["y", "tail\n"])),
     fd(op="clear", h=H),
     fd(op="reset", h=H),
     fd(op="remove", h=H),
@@ -149,6 +150,10 @@ SMALL = [
 ]
 
 CONSTRUCTED = [
+    {"two_projects": True, "ops": [
+        {"op": "new_init", "p": 0, "sp": {"a": 0}}, {"op": "write", "h": 0, "name": "f.txt", "data": "hello\n"}, {"op": "write", "h": 0, "name": "sub/._cache", "data": "c"},
+        {"op": "write", "h": 0, "name": "notes.txt~", "data": "n"}, {"op": "clone", "h": 0, "p": 1}, {"op": "append", "h": 1, "name": "f.txt", "data": "tail\n"},
+        {"op": "write", "h": 0, "name": "sub/._cache", "data": "changed"}, {"op": "sp_set", "h": 1, "k": "b", "v": 1}, {"op": "clone", "h": 1, "p": 0}, {"op": "append", "h": 2, "name": "notes.txt~", "data": "y"}]},
     {"two_projects": False, "ops": [
         {"op": "new_init", "p": 0, "sp": {"a": 0}}, {"op": "write", "h": 0, "name": "f.txt", "data": "x"}, {"op": "plant_idfile", "p": 0, "sp": {"a": 1}},
         {"op": "sp_set", "h": 0, "k": "a", "v": 1}, {"op": "new_id", "p": 0, "k": 0, "how": "id"}, {"op": "touch_sp", "h": 1}]},
